@@ -40,10 +40,17 @@ for f in sorted(failed): print("  FAILED", f)
 for m in missing[:10]: print("  MISSING", m)
 PY
 rm -f $OUT
+# stable tests that failed are run once more on their own (the repl tests time out on a loaded machine)
+for t in $(grep "^  FAILED" $LOG | grep -v "doc::check_links" | awk '{print $2}'); do
+  bin=${t%%::*}; name=${t#*::}
+  echo "== retry of $t alone" >> $LOG
+  if cargo test --workspace --offline --test $bin -- --exact $name >> $LOG 2>&1; then echo "RETRY $t passed" >> $LOG; else echo "RETRY $t FAILED" >> $LOG; fi
+done
 git checkout -- .
 cp $SEED/demo.rs tests/seed_demo.rs
 echo "== demo WITHOUT the change" >> $LOG
 cargo test --workspace --offline --test seed_demo >> $LOG 2>&1; WITHOUT=$?
 rm -f tests/seed_demo.rs
 SUITE=$(grep "^SUITE" $LOG)
-echo "$ID demo_with_change_rc=$WITH demo_without_change_rc=$WITHOUT $SUITE" | tee -a $LOG
+RETRY=$(grep "^RETRY" $LOG | tr '\n' ';')
+echo "$ID demo_with_change_rc=$WITH demo_without_change_rc=$WITHOUT $SUITE $RETRY" | tee -a $LOG
